@@ -75,12 +75,15 @@ type loopInfo struct {
 	havocked []string
 	frameB   map[string][]T
 	iter     *iterInfo
+	zeroOff  map[*ssa.Phi]bool
+	lower    map[*ssa.Phi]T
 }
 
 type writeRec struct {
-	key  string
-	base T
-	sort Sort
+	key   string
+	base  T
+	sort  Sort
+	whole bool // written at unknown objects (callee with a whole-field footprint)
 }
 
 // ---------------------------------------------------------------------------
@@ -336,7 +339,7 @@ func (u *Unit) write(st *State, key string, base T, f func(T) T, sort Sort) {
 	h := u.heapGet(st, key, sort)
 	u.heapSet(st, key, f(h))
 	if u.writeLog != nil {
-		*u.writeLog = append(*u.writeLog, writeRec{key, base, sort})
+		*u.writeLog = append(*u.writeLog, writeRec{key: key, base: base, sort: sort})
 	}
 }
 
